@@ -38,6 +38,9 @@ type c08Case struct {
 	// influence this user's verdicts.
 	Decoy    []string `json:"decoy,omitempty"`
 	Requests []string `json:"requests"` // {ROOT}-relative templates or relative paths (cwd = root)
+	// DotDot: requests with '..' right behind a link (e2e tier only): read lexically and read the way the kernel
+	// resolves them they name two different files.
+	DotDot []string `json:"dotdot,omitempty"`
 }
 
 type c08Answer struct {
@@ -273,6 +276,50 @@ func c08GenCase(rng *rand.Rand) c08Case {
 		c.Requests = append(c.Requests, "{ROOT}/"+d)
 	}
 	c.Requests = append(c.Requests, "{ROOT}/nonexistent.log", "/etc/hostname", "/dev/null", "/proc/self/environ")
+	// '..' behind a link: the kernel (and EvalSymlinks) step to the parent of the link's *target*, a lexical clean-up of the
+	// path steps to the parent of the link itself. Both places get files of the same name (directly under the root, where
+	// the parents of most link targets are, and in the directory the link lives in), so that the two readings name
+	// different existing files, often with different verdicts. Which of the two files such a request *means* is not
+	// defined by the statement; these requests go to the e2e tier only, where what is served is judged (see c08E2E).
+	have := map[string]bool{}
+	for _, nd := range c.Nodes {
+		have[nd.Path] = true
+	}
+	var dirLinks []string
+	for _, nd := range c.Nodes {
+		if nd.Kind == "symlink" && !nd.Raw {
+			for _, d := range dirs {
+				if nd.Target == d {
+					dirLinks = append(dirLinks, nd.Path)
+				}
+			}
+		}
+	}
+	for k := 0; k < 2; k++ { // two more directory links, one of them pointing into a nested directory at times
+		name := fmt.Sprintf("%s/linkdd%d", pd(), k)
+		c.Nodes = append(c.Nodes, c08Node{Path: name, Kind: "symlink", Target: pd()})
+		have[name] = true
+		dirLinks = append(dirLinks, name)
+	}
+	for _, n := range names[:5] {
+		if rng.Intn(2) == 0 && !have[n] {
+			c.Nodes = append(c.Nodes, c08Node{Path: n, Kind: "file"})
+			have[n] = true
+			for _, l := range dirLinks {
+				if rng.Intn(3) == 0 {
+					continue
+				}
+				if tw := filepath.Dir(l) + "/" + n; !have[tw] {
+					c.Nodes = append(c.Nodes, c08Node{Path: tw, Kind: "file"})
+					have[tw] = true
+				}
+				c.DotDot = append(c.DotDot, "{ROOT}/"+l+"/../"+n)
+				if rng.Intn(3) == 0 {
+					c.DotDot = append(c.DotDot, l+"/.././"+n)
+				}
+			}
+		}
+	}
 	return c
 }
 
@@ -545,6 +592,19 @@ func c08E2E(r *vlib.Run) {
 			c.Default, c.UserRule, c.UserEmpty = []string{".*"}, nil, false
 			c.Requests = []string{"{ROOT}/allowed/we ird.log"}
 		}
+		if si == 1 {
+			// '..' behind a directory link with a same-named file at both places: pub/current -> ../rel/v1/log, so that
+			// pub/current/../app.log is pub/app.log when cleaned lexically and rel/v1/app.log when the kernel walks it.
+			c.Nodes = []c08Node{{Path: "pub", Kind: "dir"}, {Path: "rel/v1/log", Kind: "dir"}, {Path: "pub/app.log", Kind: "file"},
+				{Path: "rel/v1/app.log", Kind: "file"}, {Path: "rel/app.log", Kind: "file"}, {Path: "app.log", Kind: "file"},
+				{Path: "pub/current", Kind: "symlink", Target: "../rel/v1/log", Raw: true},
+				{Path: "pub/abs", Kind: "symlink", Target: "rel/v1"}, {Path: "pub/sub", Kind: "dir"}, {Path: "pub/sub/app.log", Kind: "file"},
+				{Path: "pub/sub/up", Kind: "symlink", Target: "rel/v1/log"}}
+			c.Default, c.UserRule, c.UserEmpty, c.Decoy = []string{"^{ROOT}/pub/"}, nil, false, nil
+			c.Requests = []string{"{ROOT}/pub/app.log", "{ROOT}/rel/v1/app.log", "{ROOT}/pub/*", "{ROOT}/pub/current/*", "{ROOT}/pub/abs/*"}
+			c.DotDot = []string{"{ROOT}/pub/current/../app.log", "pub/current/../app.log", "./pub/current/../app.log", "{ROOT}/pub/abs/../app.log",
+				"{ROOT}/pub/sub/up/../app.log", "{ROOT}/pub/sub/up/../../app.log", "{ROOT}/pub/current/.././app.log", "{ROOT}/pub/abs/../v1/app.log"}
+		}
 		// the tree lives in the server's working directory
 		name := fmt.Sprintf("c08s%d", si)
 		srvDir := r.Dir("srv-" + name + "-h1")
@@ -604,6 +664,12 @@ func c08E2E(r *vlib.Run) {
 		if len(reqs) > nReq {
 			reqs = reqs[:nReq]
 		}
+		dd := append([]string(nil), c.DotDot...)
+		srng.Shuffle(len(dd), func(a, b int) { dd[a], dd[b] = dd[b], dd[a] })
+		if len(dd) > 8 {
+			dd = dd[:8]
+		}
+		reqs = append(reqs, dd...)
 		vlib.Parallel(len(reqs), 6, func(qi int) {
 			rq := reqs[qi]
 			p := c08Subst(rq, root)
@@ -621,20 +687,47 @@ func c08E2E(r *vlib.Run) {
 				abs = filepath.Join(filepath.Dir(root), p)
 			}
 			matches, _ := filepath.Glob(filepath.Clean(abs))
-			reach := map[string]bool{} // resolved paths reached and allowed
-			for _, m := range matches {
-				rp, err := filepath.EvalSymlinks(m)
-				if err != nil {
-					continue
+			reachOf := func(ms []string) map[string]bool { // resolved paths reached and allowed
+				reach := map[string]bool{}
+				for _, m := range ms {
+					rp, err := filepath.EvalSymlinks(m)
+					if err != nil {
+						continue
+					}
+					rp, _ = filepath.Abs(rp)
+					st, err := os.Lstat(rp)
+					if err != nil || !st.Mode().IsRegular() {
+						continue
+					}
+					if rulesVerdict(rules, rp) {
+						reach[rp] = true
+					}
 				}
-				rp, _ = filepath.Abs(rp)
-				st, err := os.Lstat(rp)
-				if err != nil || !st.Mode().IsRegular() {
-					continue
+				return reach
+			}
+			reach := reachOf(matches)
+			// A request with '..' behind a link has two readings (lexically cleaned / as the kernel walks it). The
+			// statement does not say which file such a request means, so: a file allowed under either reading may be
+			// served, a file allowed under both must be, and nothing else may ever appear.
+			may := reach
+			if strings.Contains(rq, "/../") || strings.Contains(rq, "/.././") {
+				asIs, _ := filepath.Glob(abs)
+				kr := reachOf(asIs)
+				may = map[string]bool{}
+				both := map[string]bool{}
+				for k := range reach {
+					may[k] = true
+					if kr[k] {
+						both[k] = true
+					}
 				}
-				if rulesVerdict(rules, rp) {
-					reach[rp] = true
+				for k := range kr {
+					may[k] = true
 				}
+				if len(may) != len(both) {
+					r.Count("e2e_requests_whose_lexical_and_kernel_reading_differ", 1)
+				}
+				reach = both
 			}
 			out := string(res.Stdout) + string(res.Stderr)
 			r.Eval(fmt.Sprintf("e2e|%v|%s", rules, rq))
@@ -649,6 +742,9 @@ func c08E2E(r *vlib.Run) {
 					if r.Known("c08.space-in-path", "an allowed file whose path contains a blank cannot be requested (blank-separated wire command)") {
 						continue
 					}
+				}
+				if has && !want && may[f.resolved] {
+					continue
 				}
 				if has != want {
 					what := "e2e-denied-content-disclosed"
